@@ -1,0 +1,12 @@
+//go:build verif
+
+package writer
+
+// Verification hook H6 (build tag verif, add-only, no behaviour change): exposes the pure readiness
+// decision function to the exhaustive order-type sweep of property C08.
+
+// VerifObjState forwards to getObjState. Return values: 1 = InfoStateUnknown (ask the downstream),
+// 2 = InfoStateCreated (apply), 3 = InfoStateDropped (skip).
+func VerifObjState(mtime, ctime, dtime uint64, cok, dok bool) int {
+	return int(getObjState(mtime, ctime, dtime, cok, dok))
+}
